@@ -608,7 +608,7 @@ class LSL(UnaryOp):
         carry = 1 if vm.flag_carry and not vm.flag_carry_block else 0
         result = ((arg << 1) + carry) & 0xFFFF
 
-        vm.flag_carry = arg & 0x8000
+        vm.flag_carry = bool(arg & 0x8000)
 
         return result
 
@@ -689,8 +689,8 @@ class ASL(UnaryOp):
         carry = 1 if vm.flag_carry and not vm.flag_carry_block else 0
         result = ((arg << 1) + carry) & 0xFFFF
 
-        vm.flag_carry = arg & 0x8000
-        vm.flag_overflow = arg & 0x8000 and not result & 0x8000
+        vm.flag_carry = bool(arg & 0x8000)
+        vm.flag_overflow = bool(arg & 0x8000 and not result & 0x8000)
 
         return result
 
@@ -718,7 +718,7 @@ class ASR(UnaryOp):
         else:
             result = arg >> 1
 
-        vm.flag_carry = arg & 0x0001
+        vm.flag_carry = bool(arg & 0x0001)
 
         return result
 
